@@ -49,6 +49,10 @@ func runControls(dir string) error {
 		}
 		expect("errflow", n, flagged)
 	}
+	// float -> integer conversions
+	for _, n := range []string{"goodFormatFloat", "badFormatIntFastPath"} {
+		expect("float2int", n, len(floatToIntConverts(fns[n])) > 0)
+	}
 	// whole-slice comparisons
 	for _, n := range []string{"goodVertexEqualXY", "badVertexEqualWhole"} {
 		expect("wholeslice", n, len(wholeSliceCompares(fns[n])) > 0)
